@@ -216,7 +216,7 @@ ADDED = {
     'C01': 'Added products: floor (positive minComposition crossed by the matrix content) and options (effective diffusion distance off, incubation scaling, status printing); reconfigure (minRadius raised between the solve calls of a split run: a preloaded population is discarded in one step).',
     'C02': 'Added product: options (as C01).',
     'C03': 'Added: options and floor products, two-phase fault bases, concentrated-alloy group in which the cap of the volume fraction at 1 acts.',
-    'C04': 'Added: fixed-composition boundary values 0 and 1, boundary types by name, runs with recording off, bounds of the initial state; stage isolation (two model objects in one case: configure model A, then run a default model B under the full oracle).',
+    'C04': 'Added: fixed-composition boundary values 0 and 1, boundary types by name, runs with recording off, bounds of the initial state; stage isolation (two model objects in one case: configure model A, then run a default model B under the full oracle) and stage reconfigure (minComposition changed between consecutive solve calls).',
     'C05': 'Added: stop request from every member position of a Coupler, status printing (verbose) clock cases.',
     'C06': 'Added: proposed step that depends on the derivative in the stage-time lattice; the clock advances by the step of the final update.',
     'C08': 'Added operations: re-meshes that move the lower end of the grid, setPSDtoRecordedTime (first / last / between rows), recording off/on.',
@@ -224,8 +224,8 @@ ADDED = {
     'C10': 'Added systems: Cu4Ti (five atoms per formula unit, curvature only), user-supplied mobility functions, interstitial sublattice (harness-owned database); every point also in a second argument form (composition including the reference element, bare scalar for binaries).',
     'C11': 'Added stage interstitial (harness-owned (FE,CR)(C,N,VA) database, independent M_k u_k value).',
     'C12': 'Added: Ni-Al binary (reversed composition index), stage tarrays (temperature arrays incl. thermal cycles vs scalar calls), states with elastic strain energy.',
-    'C14': 'Added: zero rate for non-positive driving force at every time of the lattice, integer-typed driving forces, range clauses with the default impingement function.',
-    'C16': 'Added stage intervals (mid-point quadrature on the full sphere and on a single quadrant); stage quadrature-switch (histories over the quadrature setters of one description object vs a fresh object).',
+    'C14': 'Added: zero rate for non-positive driving force at every time of the lattice, integer-typed driving forces, range clauses with the default impingement function; stage shaped (barrier of needle / plate / cuboidal precipitates at a given aspect ratio, whatever aspect-ratio rule the precipitate carries).',
+    'C16': 'Added stage intervals (mid-point quadrature on the full sphere and on a single quadrant); stage quadrature-switch (histories over the quadrature setters of one description object vs a fresh object); unequal numbers of phi / theta intervals.',
     'C17': 'Added stage dispatch (rule / post-processing selected by name, by constant, through the setters).',
     'C18': "Added: fitting factor alpha != 1 in the grain product, reduction of the mixed formulas to the library's own edge/screw methods.",
     'C19': 'Added: runs after an earlier condition set was registered and cleared, TTP through the pool protocol.',
